@@ -2,7 +2,7 @@
    (or a one-line instantiation) and followed by Print Assumptions.  One file per property, importing only
    what that property's statements need, so that a change which breaks one property's proof leaves the
    others' theorems checkable. *)
-From NTRIP Require Import Base Bits Time Classify Frame FrameSpec FrameProofs Net Pipe PipeFrames IncFrame PipeInc.
+From NTRIP Require Import Base Bits Time Classify Frame FrameSpec FrameProofs Net NetSafety Pipe PipeSafe PipeFrames IncFrame PipeInc.
 From NTRIPGen Require Import GenConsts.
 
 (* ===================== C09 ===================== *)
@@ -79,6 +79,33 @@ Theorem C09_incremental_pipeline : forall t0 (input : list N) (k : nat) (live sy
      forall i, (i < k)%nat -> sink_out N msg mstate c i = if live i then ms else []).
 Proof. exact pipeline_incremental. Qed.
 Print Assumptions C09_incremental_pipeline.
+
+(* Channel discipline in EVERY reachable configuration of the network (any framer, any schedule, any prefix of
+   an execution): the number and the capacities of the channels never change and no buffer ever holds more than
+   its capacity (a bounded channel is bounded: back-pressure, not loss); once a channel has been closed it stays
+   closed, nothing is ever put into it again, and what it still holds only drains (there is no second close and no
+   send on a closed channel: either would be a panic in Go and is a blocked process in the model, which
+   C09_every_schedule excludes). *)
+Theorem C09_channels_safe :
+  forall (B M FS : Type) (fstep : FS -> B -> FS * list M) (fflush : FS -> list M) (k : nat) (live sync : nat -> bool)
+         cap0 cap1 caps (bs : list B) (s0 : FS) c,
+  reachable _ _ _ (Pipe.prog B M FS fstep fflush k live sync) Pipe.sender Pipe.receiver (SkDone B M FS)
+            (Pipe.init B M FS k cap0 cap1 caps bs s0) c ->
+  length (chans c) = (2 + length caps)%nat /\
+  (forall ch, (length (buf (nth ch (chans c) (dchan _))) <= cap (nth ch (chans c) (dchan _)))%nat) /\
+  (forall ch, cap (nth ch (chans c) (dchan _)) =
+              cap (nth ch (chans (Pipe.init B M FS k cap0 cap1 caps bs s0)) (dchan _))).
+Proof. exact pipeline_channels_safe. Qed.
+Print Assumptions C09_channels_safe.
+
+Theorem C09_closed_for_good :
+  forall (B M FS : Type) (fstep : FS -> B -> FS * list M) (fflush : FS -> list M) (k : nat) (live sync : nat -> bool) c c' n ch,
+  steps _ (nstep _ _ _ (Pipe.prog B M FS fstep fflush k live sync) Pipe.sender Pipe.receiver (SkDone B M FS)) n c c' ->
+  closed (nth ch (chans c) (dchan _)) = true ->
+  closed (nth ch (chans c') (dchan _)) = true /\
+  exists taken, buf (nth ch (chans c) (dchan _)) = (taken ++ buf (nth ch (chans c') (dchan _)))%list.
+Proof. exact pipeline_closed_for_good. Qed.
+Print Assumptions C09_closed_for_good.
 
 (* The fan-out process of Pipe.v transcribes this loop of appcore.HandleMessagesUntilEOF:
      for i := range appCore.Channels { if appCore.Channels[i] != nil { appCore.Channels[i] <- message } }
